@@ -32,6 +32,13 @@ type Call struct {
 }
 
 func (c Call) String() string {
+	if strings.HasPrefix(c.Op, "Sub/") {
+		d := c
+		d.Op = c.Op[len("Sub/"):]
+
+		return "Sub/" + d.String()
+	}
+
 	switch c.Op {
 	case "Mkdir", "MkdirAll", "Chmod":
 		return fmt.Sprintf("%s(%q,%#o)", c.Op, c.A, c.Perm)
@@ -363,6 +370,24 @@ func UnixMode(p uint32) fs.FileMode {
 }
 
 func do(v avfs.VFS, c Call) Res {
+	// "Sub/<op>": the call is issued through a fresh view of the root directory
+	// (volume root) obtained with v.Sub, as a second goroutine's view would be
+	if strings.HasPrefix(c.Op, "Sub/") {
+		vol := avfs.VolumeName(v, c.A)
+		if vol == "" && v.OSType() == avfs.OsWindows {
+			vol = "C:"
+		}
+
+		sv, err := v.Sub(vol + string(v.PathSeparator()))
+		if err != nil {
+			return errRes(err)
+		}
+
+		c.Op = c.Op[len("Sub/"):]
+
+		return do(sv, c)
+	}
+
 	perm := UnixMode(c.Perm)
 
 	switch c.Op {
